@@ -108,6 +108,23 @@ def checkLincomb (o : Opts) (p : Nat) (coeffs : List SNum) (scale : Q) (words : 
 
 def splitWords (s : String) : List String := (s.splitOn " ").filter (· ≠ "")
 
+/-- two rendered strings agree except for the last decimal place of signed numbers (rounded float quotients of
+    normalised rows); every other word — indices, labels, variables, arrows — is identical -/
+def sameUpToLastPlace (a b : String) : Bool :=
+  let la := a.splitOn "\n"
+  let lb := b.splitOn "\n"
+  la.length == lb.length && (la.zip lb).all (fun (x, y) =>
+    let wx := splitWords x
+    let wy := splitWords y
+    wx.length == wy.length && (wx.zip wy).all (fun (u, v) =>
+      u == v ||
+      (u.length == v.length &&
+        match parseSigned u, parseSigned v with
+        | some (_, q), some (_, r) =>
+          let decimals := match u.splitOn "." with | [_, f] => f.length | _ => 0
+          absQ (q - r) ≤ (1 : Q) / (10 : Q) ^ decimals
+        | _, _ => false)))
+
 def judgeC19 : P Verdict := do
   let kind ← tok
   tag kind
@@ -194,13 +211,28 @@ def judgeC19 : P Verdict := do
         | none => pure ()
       let nEdges := (lines.filter (fun l => (l.splitOn " -> ").length == 2)).length
       if nEdges != nodes.length - 1 then return .propfail s!"[C19] DOT: {nEdges} edge statements for {nodes.length - 1} edges"
+    else
+      -- Display: the `children:` line of every node lists exactly its occupied slots as `label->index`
+      let lines := s.splitOn "\n"
+      for nd in nodes do
+        let istr := toString nd.idx
+        let hdr := "[" ++ String.ofList (List.replicate (3 - istr.length) ' ') ++ istr ++ "|" ++ (if nd.isleaf then "T" else "D") ++ "]"
+        let pos := lines.findIdx (fun (l : String) => l.startsWith hdr)
+        if pos ≥ lines.length then return .propfail s!"[C19] Display: node {nd.idx} has no header line"
+        let want := ((List.range nd.children.length).zip nd.children).filterMap (fun (l, c) => c.map (fun i => s!"{l}->{i}"))
+        let next := lines.getD (pos + 1) ""
+        if !want.isEmpty then
+          let got := (((next.drop 10).toString.splitOn ", "))
+          if !next.startsWith "children: " || got != want then
+            return .propfail s!"[C19] Display: node {nd.idx} has children {want} but its line reads '{next}'"
+        else if next.startsWith "children: " then
+          return .propfail s!"[C19] Display: terminal {nd.idx} is printed with children: '{next}'"
     let m := if kind == "dot" then dotTree nodes else displayTree nodes
     if m == s then pure .ok
     else
-      if nodes.any (fun nd => !nd.isleaf) then
-        -- decisions are printed normalised: allow last-place differences of float quotients only if the
-        -- strings have the same shape (same length)
-        if m.length == s.length then pure (.inexact "normalised quotient") else pure (.diverge s!"rendered tree differs: model '{m}' impl '{s}'")
+      -- decisions are printed normalised: last-place differences of float quotients are rounding; anything else
+      -- (labels, indices, structure) is a divergence
+      if nodes.any (fun nd => !nd.isleaf) && sameUpToLastPlace m s then pure (.inexact "normalised quotient")
       else pure (.diverge s!"rendered tree differs: model '{m}' impl '{s}'")
   | _ => throw s!"unknown C19 kind {kind}"
 
